@@ -17,6 +17,7 @@ import (
 	"image/png"
 	"io"
 	"os"
+	"path"
 	"path/filepath"
 	"sort"
 	"strings"
@@ -146,6 +147,7 @@ func imgDims(atom int) (int, int) { return 2 + atom%5, 2 + (atom/5)%4 }
 type fRel struct {
 	ID, Kind, Target string
 	External        bool
+	Abs             bool // the target is written package-absolute ("/word/media/image1.png"), as several producers do
 }
 
 type foreignPkg struct {
@@ -232,7 +234,11 @@ func (f *foreignPkg) build() []byte {
 		if r.External {
 			mode = ` TargetMode="External"`
 		}
-		fmt.Fprintf(&dr, `<Relationship Id="%s" Type="%s%s" Target="%s"%s/>`, r.ID, relBase, r.Kind, xmlEsc(r.Target), mode)
+		tgt := r.Target
+		if r.Abs && !r.External {
+			tgt = "/" + path.Clean("word/"+tgt)
+		}
+		fmt.Fprintf(&dr, `<Relationship Id="%s" Type="%s%s" Target="%s"%s/>`, r.ID, relBase, r.Kind, xmlEsc(tgt), mode)
 	}
 	dr.WriteString(`</Relationships>`)
 
@@ -360,10 +366,32 @@ func genForeign(r *rng) *foreignPkg {
 	for i, n := 0, r.pick([]int{50, 30, 20}); i < n; i++ {
 		rels = append(rels, fRel{ID: newID(), Kind: "hyperlink", Target: fmt.Sprintf("https://example.org/%d?a=1&b=2", r.intn(100)), External: true})
 	}
-	if r.chance(25) {
-		f.Extra["word/numbering.xml"] = `<?xml version="1.0"?><w:numbering xmlns:w="` + wNS + `"><w:abstractNum w:abstractNumId="5"><w:lvl w:ilvl="0"><w:start w:val="1"/><w:numFmt w:val="decimal"/><w:lvlText w:val="%1)"/></w:lvl></w:abstractNum><w:num w:numId="9"><w:abstractNumId w:val="5"/></w:num></w:numbering>`
+	// numbering and notes parts the way other producers write them: the WordprocessingML namespace under the usual
+	// prefix, under another prefix, or as the default namespace
+	nsForms := func(root, inner string) string {
+		switch r.intn(4) {
+		case 0:
+			q := "ns0"
+			return `<?xml version="1.0"?><` + q + `:` + root + ` xmlns:` + q + `="` + wNS + `">` + strings.ReplaceAll(inner, "w:", q+":") + `</` + q + `:` + root + `>`
+		case 1:
+			in := strings.ReplaceAll(strings.ReplaceAll(inner, "<w:", "<"), "</w:", "</")
+			return `<?xml version="1.0"?><` + root + ` xmlns="` + wNS + `" xmlns:w="` + wNS + `">` + in + `</` + root + `>`
+		}
+		return `<?xml version="1.0"?><w:` + root + ` xmlns:w="` + wNS + `">` + inner + `</w:` + root + `>`
+	}
+	if r.chance(30) {
+		f.Extra["word/numbering.xml"] = nsForms("numbering", `<w:abstractNum w:abstractNumId="5"><w:lvl w:ilvl="0"><w:start w:val="1"/><w:numFmt w:val="decimal"/><w:lvlText w:val="%1)"/></w:lvl></w:abstractNum><w:num w:numId="9"><w:abstractNumId w:val="5"/></w:num>`)
 		f.Overrides["word/numbering.xml"] = "application/vnd.openxmlformats-officedocument.wordprocessingml.numbering+xml"
 		rels = append(rels, fRel{ID: newID(), Kind: "numbering", Target: "numbering.xml"})
+	}
+	for _, kind := range []string{"footnote", "endnote"} {
+		if !r.chance(20) {
+			continue
+		}
+		name := "word/" + kind + "s.xml"
+		f.Extra[name] = nsForms(kind+"s", `<w:`+kind+` w:type="separator" w:id="-1"><w:p><w:r><w:separator/></w:r></w:p></w:`+kind+`><w:`+kind+` w:id="1"><w:p><w:r><w:t>foreign `+kind+`</w:t></w:r></w:p></w:`+kind+`>`)
+		f.Overrides[name] = "application/vnd.openxmlformats-officedocument.wordprocessingml." + kind + "s+xml"
+		rels = append(rels, fRel{ID: newID(), Kind: kind + "s", Target: kind + "s.xml"})
 	}
 	if r.chance(25) {
 		f.Extra["word/settings.xml"] = `<?xml version="1.0"?><w:settings xmlns:w="` + wNS + `"><w:zoom w:percent="120"/></w:settings>`
@@ -405,6 +433,13 @@ func genForeign(r *rng) *foreignPkg {
 				}
 				f.Extra["word/_rels/"+kind+fn+".xml.rels"] = `<?xml version="1.0"?><Relationships xmlns="http://schemas.openxmlformats.org/package/2006/relationships"><Relationship Id="rId1" Type="` + relBase + `image" Target="` + strings.TrimPrefix(logo, "word/") + `"/></Relationships>`
 			}
+		}
+	}
+	// package-absolute targets: all relationships of the package (some producers write only those), or some
+	absAll := r.chance(10)
+	for i := range rels {
+		if !rels[i].External && (absAll || r.chance(8)) {
+			rels[i].Abs = true
 		}
 	}
 	// shuffle the relationship order
@@ -745,11 +780,20 @@ func checkC04(s *docState, v *PkgView) []string {
 		g, ok := have[r.ID]
 		if !ok {
 			bad = append(bad, fmt.Sprintf("rels_kept: relationship %s (%s) is gone", r.ID, relKind(r.Type)))
-		} else if g != r {
+		} else if sameTargetSpelling(g) != sameTargetSpelling(r) {
 			bad = append(bad, fmt.Sprintf("rels_kept: relationship %s changed from %+v to %+v", r.ID, r, g))
 		}
 	}
 	return bad
+}
+
+// sameTargetSpelling: the target of an internal relationship is a reference resolved against the main part -
+// "/word/styles.xml" and "styles.xml" are the same target; external targets are compared as written
+func sameTargetSpelling(r RelV) RelV {
+	if r.Mode != "External" {
+		r.Target = resolveTarget("word/_rels/document.xml.rels", r.Target)
+	}
+	return r
 }
 
 var foreignZipCache = map[*byte][]byte{}
